@@ -34,6 +34,13 @@ class FixedRng:
         return self.value
 
 
+class RangeRng(FixedRng):
+    """the fixed value for draws of at most 20 bits, a different (fixed) value for wider draws"""
+
+    def randint(self, a, b):
+        return self.value if b <= 0xFFFFF else max(a, min(b, 0xA5A5A5A5))
+
+
 def limbs(v, n):
     return [(v >> (16 * (n - 1 - i))) & 0xFFFF for i in range(n)]
 
@@ -287,7 +294,22 @@ def run(tier, seed):
         e2e.append((n12, r, g.sequence))
         cases.append({"op": "e2einit", "n12": n12, "rhi": r >> 16, "rlo": r & 0xFFFF})
         expect.append(("e2einit", n12, g.sequence))
-    # node-level: Node(...).end_to_end_seq is built from the node's start time
+    # node-level: Node(...).end_to_end_seq is built from the node's start time (residue 0 included: a multiple of 4096 s),
+    # and a time-seeded generator counts on through the whole 32-bit space: the low 20 bits carry into the time bits,
+    # MAX is followed by 1
+    node_cases = [(0, 5), (0, 0xFFFFF), (1, 0xFFFFD), (0x7FF, 0xFFFFE), (0x800, 1), (0xFFE, 0xFFFFE), (0xFFF, 0xFFFFB), (0xFFF, 0xFFFFF), (0xABC, 0x80000)]
+    node_cases += [((seed * 7919 + 31 * k) % 4096, 1 + (seed * 104729 + 7 * k) % 0xFFFFF) for k in range(24 if thorough else 8)]
+    for n12, r in node_cases:
+        s.now = float((0x65321 << 12) | n12) + 0.25
+        s.rng = RangeRng(r)
+        node = ns.node.Node("node.example.org", "example.org")
+        g = node.end_to_end_seq
+        first = g.sequence
+        cases.append({"op": "e2einit", "n12": n12, "rhi": r >> 16, "rlo": r & 0xFFFF})
+        expect.append(("e2einit", n12, first))
+        obs = [g.next_sequence() for _ in range(64)]
+        cases.append({"op": "badsteps", "obs": [limbs(first, 2)] + [limbs(v, 2) for v in obs]})
+        expect.append(("badsteps", "node_e2e(n12=%#x,r=%#x)" % (n12, r), first))
     # session id text
     sess = []
     for k, (st, opt) in enumerate([(5, []), (REALMAX64, ["user@host", "x"]), (0x1234567800000000 - 1, ["a"]),
